@@ -51,7 +51,21 @@ DTYPES = {
     "ts_ns": ["datetime64[ns, UTC]", "datetime64[ns]"], "int96": ["datetime64[ns]"],
     "time_ms": ["timedelta64[ms]"], "time_us": ["timedelta64[us]"], "float": ["float32"], "double": ["float64"],
     "bytes": ["object"], "flba": ["object"], "utf8": ["object", "str", "string"], "json": ["object"],
+    "decimal": ["float64"],
 }
+
+
+def decimal_expected(e, leaf):
+    """physical cell of a DECIMAL column -> the float the reader must return: unscaled signed integer * 10**-scale
+    (big-endian two's complement for byte arrays, two's complement of the physical width for INT32/INT64)"""
+    if isinstance(e, dict):
+        e = bytes.fromhex(e["b"])
+    if isinstance(e, (bytes, bytearray)):
+        u = int.from_bytes(e, "big", signed=True)
+    else:
+        bits = 32 if leaf["type"] == 1 else 64
+        u = e - (1 << bits) if e >> (bits - 1) else e
+    return u * 10 ** -leaf["scale"]
 
 
 def fp_cells(s, leaf):
@@ -61,6 +75,8 @@ def fp_cells(s, leaf):
     tag, t = leaf["tag"], leaf["type"]
     dt = s.dtype
     out = []
+    if tag == "decimal":
+        return [None if (v is None or v != v) else ("dec", float(v)) for v in s.tolist()]
     if isinstance(dt, pd.CategoricalDtype):
         cats = list(s.cat.categories)
         s = pd.Series([None if c < 0 else cats[c] for c in s.cat.codes], dtype=object)
@@ -121,6 +137,10 @@ def fp_cells(s, leaf):
 
 def cell_ok(e, g, leaf):
     """e: expected physical cell (None | int | {"b": hex}); g: from fp_cells"""
+    if leaf["tag"] == "decimal":
+        if e is None or g is None:
+            return e is None and g is None
+        return isinstance(g, tuple) and g[0] == "dec" and g[1] == decimal_expected(e, leaf)
     if isinstance(e, dict):
         e = bytes.fromhex(e["b"])
     if isinstance(g, tuple) and g[0] == "nan":
@@ -340,8 +360,12 @@ def run_case(lf, table, scratch, cats=False):
         if len(got) != len(exp):
             continue
         bad = [(i, e, g) for i, (e, g) in enumerate(zip(exp, got)) if not cell_ok(e, g, l)]
+        # numpy 'S' arrays drop trailing NUL bytes: a FIXED_LEN_BYTE_ARRAY value ending in 0x00 comes back shorter (known finding)
+        nul = l["type"] == 7 and l["tag"] == "flba" and bad and all(
+            isinstance(e, dict) and isinstance(g, bytes) and bytes.fromhex(e["b"]).rstrip(b"\0") == g for _, e, g in bad)
         for i, e, g in bad[:2]:
-            res["problems"].append(("decode", "column %s (%s) row %d: file encodes %r, fastparquet returns %r" % (l["name"], l["tag"], i, e, g)))
+            res["problems"].append(("flba-trailing-nul" if nul else "decode",
+                                    "column %s (%s) row %d: file encodes %r, fastparquet returns %r" % (l["name"], l["tag"], i, e, g)))
     if res["problems"]:
         res["outcome"] = "differs"
     # model of the chunk reader against what the real reader returned (cell by cell, physical bit patterns)
@@ -542,6 +566,11 @@ def gen_jobs(ctx):
             p = os.path.join(td, fn)
             if os.path.isfile(p) and fn.endswith(".parquet") and os.path.getsize(p) > 12:
                 jobs.append((None, {}, {"expect": "testdata", "stream": "test-data", "file": fn, "kwargs": {}}))
+    # 0c. deterministic block (identical on every run, no sampling): DECIMAL over FIXED_LEN_BYTE_ARRAY of width 1,2,3,5,7,8,9,16 /
+    #     BYTE_ARRAY / INT32 / INT64 x {negative, zero, positive, min, max} x PLAIN/dictionary x required/optional x v1/v2, and every
+    #     converted/logical type with its sign and extreme values - so that every branch of converted_types.convert is exercised
+    for lf, table in G.fixed_block():
+        jobs.append((lf, table, {"expect": "decode", "stream": "fixed-types"}))
     # 1. random layouts in the region the reader is supposed to support
     for _ in range(260 if quick else 14000):
         add({"width": None, "created_by": rng.choice(["spec-encoder", "parquet-mr version 1.12.3"])})
@@ -664,7 +693,9 @@ def run(ctx):
     C.shadow()
     C.pqref()
     extraction_vs_kernel(ctx)
-    ctx.rule = ("layout descriptions from harness/fmtgen.py encoded by the extracted spec encoder: 24 physical x converted/logical types; "
+    ctx.rule = ("layout descriptions from harness/fmtgen.py encoded by the extracted spec encoder: a deterministic block (DECIMAL over FLBA widths "
+                "1,2,3,5,7,8,9,16 / BYTE_ARRAY / INT32 / INT64 and every converted/logical type, each with negative, zero, positive, min, max "
+                "values x PLAIN/dictionary x required/optional x v1/v2); then 24 physical x converted/logical types; "
                 "PLAIN / PLAIN_DICTIONARY / RLE_DICTIONARY (index widths 0..32; runs all-RLE, all-bit-packed, alternating, mixed, single run, "
                 "final run ending mid-group, RLE run longer than needed) / RLE booleans / DELTA_BINARY_PACKED (block 128,256 x miniblocks 1,4,8 "
                 "x delta widths 0..32(56)); definition levels as RLE and bit-packed runs; page boundaries incl. every row; 1..3 row groups; "
